@@ -190,7 +190,7 @@ class TreeFam(Fam):
 
     def args(self, spec, data):
         from vv.props import c15
-        return c15.to_lib(lib(), data, "csr"), {}
+        return c15.to_lib(lib(), data, spec["case"].get("storage", "csr")), {}
 
 
 class EdgeFam(Fam):
